@@ -36,6 +36,24 @@ OPS_SMALL = [('inc', a) for a in AMOUNTS] + [('reset', None), ('put', 12)]
 MODULOS = (None, 1, 2, 7, 10, 2.5)
 
 
+HUGE = 10 ** 5000       # more decimal digits than CPython converts to text by default (4300)
+
+
+def dec(x):
+    """Decode symbolic numbers of a case ('HUGE', '-HUGE', 'HUGE+7')."""
+    if isinstance(x, str):
+        return {'HUGE': HUGE, '-HUGE': -HUGE, 'HUGE+7': HUGE + 7}[x]
+    return x
+
+
+def sr(x):
+    """repr() that survives integers beyond the int->str conversion limit."""
+    try:
+        return repr(x)
+    except ValueError:
+        return f"<int with {x.bit_length()} bits>"
+
+
 def ref_reduce(v, mod):
     return v if mod is None else v % mod
 
@@ -103,7 +121,7 @@ def random_cases(ctx):
                 # so 5 may stay 5 after put(5.0) and int/float arithmetic beyond 2**53 differs)
                 return rng.randrange(-20, 21)
             return rng.choice([10 ** 18, -10 ** 18, 2 ** 64 + 1, -(2 ** 63), 10 ** 30,
-                               rng.randrange(-10 ** 12, 10 ** 12)])
+                               rng.randrange(-10 ** 12, 10 ** 12), 'HUGE', '-HUGE', 'HUGE+7'])
         initdef = num() if rng.random() < 0.7 else 0
         seq = []
         for _ in range(rng.randrange(1, 40)):
@@ -129,7 +147,7 @@ def run_batch(batch, ctx):
     storage = harness.Storage()
     for i, case in enumerate(batch):
         if 'stored' in case:
-            dict.__setitem__(storage, f"<Counter 'c{i}'>", case['stored'])
+            dict.__setitem__(storage, f"<Counter 'c{i}'>", dec(case['stored']))
     dict.__setitem__(storage, 'edzed-stop-time', 0.0)
     done = [False] * len(batch)
     state = {'aborted': None}
@@ -141,7 +159,7 @@ def run_batch(batch, ctx):
             if case['mod'] is not None:
                 kw['modulo'] = case['mod']
             blocks.append(edzed.Counter(
-                f"c{i}", initdef=case['initdef'], persistent='stored' in case, **kw))
+                f"c{i}", initdef=dec(case['initdef']), persistent='stored' in case, **kw))
         return blocks
 
     async def drive(sim, blocks):
@@ -178,9 +196,9 @@ def run_batch(batch, ctx):
 
 def check_one(case, blk, sim, ctx):
     import edzed
-    mod, initdef = case['mod'], case['initdef']
+    mod, initdef = case['mod'], dec(case['initdef'])
     if 'stored' in case:
-        v = ref_reduce(case['stored'], mod)
+        v = ref_reduce(dec(case['stored']), mod)
         ctx.count('restore_checked')
         if not same(blk.output, v):
             raise core.Violation(
@@ -192,8 +210,9 @@ def check_one(case, blk, sim, ctx):
         if not same(blk.output, v):
             raise core.Violation(
                 'initdef-not-reduced',
-                f"modulo={mod} initdef={initdef!r}: initial output {blk.output!r}, expected {v!r}")
+                f"modulo={mod} initdef={sr(initdef)}: initial output {sr(blk.output)}, expected {sr(v)}")
     for k, (op, arg) in enumerate(case['seq']):
+        arg = dec(arg)
         if op == 'put_novalue':
             ctx.count('put_without_value_checked')
             before = blk.output
@@ -217,23 +236,30 @@ def check_one(case, blk, sim, ctx):
             continue
         v = ref_apply(v, op, arg, mod, initdef)
         ev = edzed.ExtEvent(blk, op)
-        if op == 'put':
-            ret = ev.send(arg)
-        elif arg is None:
-            ret = ev.send()
-        else:
-            ret = ev.send(amount=arg)
+        kw = {'source': 'panel'} if k % 3 == 1 else {}     # explicit / default event source
+        try:
+            if op == 'put':
+                ret = ev.send(arg, **kw)
+            elif arg is None:
+                ret = ev.send(**kw)
+            else:
+                ret = ev.send(amount=arg, **kw)
+        except Exception as err:    # pylint: disable=broad-except
+            raise core.Violation(
+                f'event-raised-{op}',
+                f"modulo={mod} initdef={sr(initdef)} event #{k} {op}({sr(arg)}) raised "
+                f"{type(err).__name__}: {str(err)[:200]}")
         ctx.count('events_compared')
         if not same(ret, v, mod):
             raise core.Violation(
                 f'return-value-{op}',
-                f"modulo={mod} initdef={initdef!r} event #{k} {op}({arg!r}) returned {ret!r}, "
-                f"reference {v!r}; sequence {case['seq'][:k + 1]}")
+                f"modulo={mod} initdef={sr(initdef)} event #{k} {op}({sr(arg)}) returned {sr(ret)}, "
+                f"reference {sr(v)}; sequence {case['seq'][:k + 1]}")
         if not same(blk.output, v, mod):
             raise core.Violation(
                 f'output-{op}',
-                f"modulo={mod} initdef={initdef!r} after event #{k} {op}({arg!r}) output is "
-                f"{blk.output!r}, reference {v!r}; sequence {case['seq'][:k + 1]}")
+                f"modulo={mod} initdef={sr(initdef)} after event #{k} {op}({sr(arg)}) output is "
+                f"{sr(blk.output)}, reference {sr(v)}; sequence {case['seq'][:k + 1]}")
         if mod is not None and mod > 0:
             ctx.count('range_checks')
             def in_range(x):
